@@ -14,7 +14,7 @@ GEN = ['gen_policy_base.json', 'gen_policy_open2n2.json', 'gen_policy_open2n2_m1
        'gen_index_base.json', 'gen_index_open2n2.json', 'gen_index_open8.json', 'gen_buckets.json', 'gen_hashset_grow.json',
        'gen_c13_open2n2.json', 'gen_c13_open2n2_ops.json', 'gen_c13_openn1.json', 'gen_c13_openn1_ops.json',
        'gen_c12_base.json', 'gen_c12_limp4.json', 'gen_c12_limp4_add.json', 'gen_c12_one.json',
-       'gen_hashset_move.json', 'gen_p4s4.json', 'gen_p4s3.json', 'gen_p4s2.json', 'gen_p4s1.json']
+       'gen_hashset_move.json', 'gen_hashset_find.json', 'gen_p4s4.json', 'gen_p4s3.json', 'gen_p4s2.json', 'gen_p4s1.json']
 MAP_KINDS = ('L4', 'L1', 'O3', 'P3', 'N1')
 
 
@@ -404,6 +404,20 @@ def leaf_cases(ctx, scale):
             elif r.below(4) == 0:
                 toks.append('C:0'); cnt = 0
         out.append('leaf bops %s %d %d %s' % (kind, m, L, ' '.join(toks)))
+    # the generated pvAddNogrow probe loop / pvRelocateItems loop skeleton against the REAL private pvAddNogrow (called directly, table
+    # filled until "Hash table is full") and one REAL migration observed through a move-logging key type
+    for i in range(120 * scale):
+        kind = r.choice(['L1', 'L2', 'L4', 'O1', 'O3', 'O8', 'N1']); L = r.range(1, 5) if kind != 'O8' else r.range(1, 3)
+        mc = {'L1': 1, 'L2': 2, 'L4': 4, 'O1': 1, 'O3': 3, 'O8': 7, 'N1': 1}[kind]; bc = 2 ** L
+        n = r.choice([r.range(0, bc * mc), bc * mc + r.range(0, 3), r.range(0, bc * mc + 3)])
+        hs = []; seen = set()
+        clustered = r.chance(50, 100); base = r.below(bc)
+        while len(hs) < n:
+            h = r.choice([r.next(), r.below(1 << 20), r.below(4 * bc)])
+            if clustered and r.chance(70, 100): h = (h // bc) * bc + (base + r.below(2)) % bc   # pile up on one or two start buckets
+            h %= 2 ** 64
+            if h not in seen: seen.add(h); hs.append(h)
+        out.append('leaf move %s %d %s' % (kind, L, ' '.join(str(h) for h in hs)))
     # the LimP4 / One bucket operations (translations ported from C12): metadata bytes, count, IsFull, WasFull, memory-pool index
     for i in range(200 * scale):
         cnt = 0; toks = []
@@ -472,6 +486,29 @@ def first_diff(a, b):
     return -1, '', ''
 
 
+def gen_facts(ctx, regen_ok):
+    """T-gen (AST facts, astfacts.py): the try / catch (...) of pvRelocateItems() and the recursion / Destroy order of
+    pvRelocateItems(Buckets*) are read off the clang AST of the CURRENT headers into coq/Gen_RelocFacts.v; GenFacts.v computes the
+    structural facts the hand model is written for and proves them.  A stale fact file must never keep the proofs green."""
+    import importlib.util, hashlib
+    out = os.path.join(ctx.cdir, 'Gen_RelocFacts.v')
+    try:
+        sp = importlib.util.spec_from_file_location('c11_astfacts', os.path.join(ctx.pdir, 'astfacts.py'))
+        m = importlib.util.module_from_spec(sp); sp.loader.exec_module(m)
+        txt = m.facts_text(os.path.join(ctx.pdir, 'inst_grow.cpp'), ctx.repo, ctx.root)
+        if not os.path.exists(out) or open(out).read() != txt:
+            open(out, 'w').write(txt)
+        ctx.tie_obligations.append({'name': 'translate Gen_RelocFacts (AST facts: try/catch of pvRelocateItems(), recursion and Destroy order of '
+                                            'pvRelocateItems(Buckets*))', 'ok': True, 'sha256': hashlib.sha256(txt.encode()).hexdigest()[:16]})
+        return True
+    except Exception as e:
+        if os.path.exists(out):
+            os.remove(out)
+        ctx.tie_obligations.append({'name': 'translate Gen_RelocFacts', 'ok': False, 'error': str(e)[:400]})
+        ctx.stage('regen', False, 'AST facts: %s' % str(e)[:300])
+        return False
+
+
 def run(ctx):
     scale = 1 if ctx.quick() else 8
     ctx.trusted += ['tools/cxx2coq.py + clang 14 JSON AST for the leaf functions (validated on every run against the real functions); double arithmetic of CalcCapacity translated to exact rationals',
@@ -483,7 +520,7 @@ def run(ctx):
                         'max-probe encoders never under-approximate (property C13); the extracted model uses the exact maximum',
                         'the failure schedule fed to the model is the one observed on the real run (refused array allocation, number of items migrated before the injected failure)',
                         'bucket counts stay below Buckets::maxBucketCount (no length_error path)']
-    ctx.regen(GEN)          # T-gen: the leaf arithmetic of the growth decision / probe sequence, from the current headers
+    gen_facts(ctx, ctx.regen(GEN))          # T-gen: the leaf arithmetic of the growth decision / probe sequence, from the current headers
     ctx.prove()
     harnesses = build(ctx)
     if harnesses is None:
